@@ -605,7 +605,35 @@ func replayPair(prop string, framing bool) func(r *fw.Run, raw json.RawMessage) 
 	return func(r *fw.Run, raw json.RawMessage) {
 		var c pairCase
 		if json.Unmarshal(raw, &c) != nil || len(c.Calls) == 0 {
-			r.Note("replay: case not understood")
+			// one of the side workloads (recorded as {"what": ..., "transport": ..., "k": ...}): run them again on that transport
+			var side struct {
+				What      string `json:"what"`
+				Transport string `json:"transport"`
+				K         int    `json:"k"`
+			}
+			if json.Unmarshal(raw, &side) != nil || side.What == "" || side.Transport == "" {
+				r.Note("replay: case not understood")
+				return
+			}
+			p, err := newPair(r, side.Transport, RigOpt{Ifaces: c01Ifaces})
+			if err != nil {
+				rigFailure(r, prop, err, side.Transport)
+				return
+			}
+			jg := &JGen{R: rand.New(rand.NewSource(r.Seed))}
+			for k := side.K; k < side.K+8 && r.ViolationCount() == 0; k++ {
+				pairInterleaved(r, p, prop, jg, k)
+				if prop == "C03" {
+					c03LateRead(r, p, k)
+					c03Pipelined(r, p, jg, k)
+					c03Monitor(r, p, k)
+				} else {
+					c02DeadlineThenPause(r, p, side.Transport, k)
+				}
+			}
+			r.Case(1, true)
+			r.Case(2, true)
+			p.Close()
 			return
 		}
 		p, err := newPair(r, c.Transport, RigOpt{Ifaces: c01Ifaces})
